@@ -36,6 +36,9 @@ pub struct Case {
     pub place: u8,
     /// 0 `localhost`, 1 `127.0.0.1`
     pub host_form: u8,
+    /// with add_root: the certificate that is added is the presented leaf itself (a pinned certificate), not the CA
+    #[serde(default)]
+    pub pin_leaf: bool,
 }
 
 pub struct C14;
@@ -54,12 +57,20 @@ type Cert = native_tls::Certificate;
 type Cert = rustls::pki_types::CertificateDer<'static>;
 
 #[cfg(feature = "native")]
-fn root_cert() -> Cert {
-    native_tls::Certificate::from_pem(&crate::tunnel::load_pem_bytes("root")).expect("fixture root")
+fn anchor_cert(name: &str) -> Cert {
+    native_tls::Certificate::from_pem(&crate::tunnel::load_pem_bytes(name)).expect("fixture certificate")
 }
 #[cfg(not(feature = "native"))]
-fn root_cert() -> Cert {
-    crate::tunnel::load_certs("root").remove(0)
+fn anchor_cert(name: &str) -> Cert {
+    crate::tunnel::load_certs(name).remove(0)
+}
+
+fn root_cert_for(c: &Case) -> Cert {
+    if c.pin_leaf {
+        anchor_cert(CERTS[c.cert as usize % CERTS.len()].0)
+    } else {
+        anchor_cert("root")
+    }
 }
 
 pub fn all_cases() -> Vec<Case> {
@@ -71,7 +82,10 @@ pub fn all_cases() -> Vec<Case> {
                     for route in 0..3u8 {
                         for place in 0..5u8 {
                             for host_form in 0..2u8 {
-                                v.push(Case { cert, invalid_certs, invalid_hostnames, add_root, route, place, host_form });
+                                v.push(Case { cert, invalid_certs, invalid_hostnames, add_root, route, place, host_form, pin_leaf: false });
+                                if add_root {
+                                    v.push(Case { cert, invalid_certs, invalid_hostnames, add_root, route, place, host_form, pin_leaf: true });
+                                }
                             }
                         }
                     }
@@ -90,7 +104,7 @@ fn apply_session(s: &mut attohttpc::Session, c: &Case) {
         s.danger_accept_invalid_hostnames(true);
     }
     if c.add_root {
-        s.add_root_certificate(root_cert());
+        s.add_root_certificate(root_cert_for(c));
     }
 }
 
@@ -102,7 +116,7 @@ fn apply_builder(mut b: attohttpc::RequestBuilder, c: &Case) -> attohttpc::Reque
         b = b.danger_accept_invalid_hostnames(true);
     }
     if c.add_root {
-        b = b.add_root_certificate(root_cert());
+        b = b.add_root_certificate(root_cert_for(c));
     }
     b
 }
@@ -110,9 +124,9 @@ fn apply_builder(mut b: attohttpc::RequestBuilder, c: &Case) -> attohttpc::Reque
 impl Property for C14 {
     type Case = Case;
     const ID: &'static str = "C14";
-    const RULE: &'static str = "configuration matrix {chains to the added root, wrong name, self-signed, unknown issuer, expired, each with matching / differing name, valid for only one of the two names of the peer} x accept_invalid_certs x accept_invalid_hostnames x root added x \
+    const RULE: &'static str = "configuration matrix {chains to the added root, wrong name, self-signed, unknown issuer, expired, each with matching / differing name, valid for only one of the two names of the peer} x accept_invalid_certs x accept_invalid_hostnames x root added {no, the CA, the presented certificate itself} x \
 route {direct https, inside a CONNECT tunnel through a plain proxy, https proxy presenting the certificate} x where the flags/root were set {session, this request, sibling request created before / after, session after the request was created} x \
-contacted host {localhost, 127.0.0.1}: 2400 cells per TLS backend, each a real TLS handshake against a rustls server on a loopback socket; both tiers run all cells of both backends. Oracle = the truth table, both directions. \
+contacted host {localhost, 127.0.0.1}: 3600 cells per TLS backend, each a real TLS handshake against a rustls server on a loopback socket; both tiers run all cells of both backends. Oracle = the truth table, both directions. \
 non-trivial = at least one danger flag, an added root or a non-valid certificate; distinct by cell";
 
     fn assumptions() -> Vec<String> {
@@ -165,7 +179,7 @@ non-trivial = at least one danger flag, an added root or a non-valid certificate
 
     fn strategy(_tier: Tier) -> BoxedStrategy<Case> {
         (0u8..CERTS.len() as u8, any::<bool>(), any::<bool>(), any::<bool>(), 0u8..3, 0u8..5, 0u8..2)
-            .prop_map(|(cert, invalid_certs, invalid_hostnames, add_root, route, place, host_form)| Case { cert, invalid_certs, invalid_hostnames, add_root, route, place, host_form })
+            .prop_map(|(cert, invalid_certs, invalid_hostnames, add_root, route, place, host_form)| Case { cert, invalid_certs, invalid_hostnames, add_root, route, place, host_form, pin_leaf: false })
             .boxed()
     }
 
@@ -232,7 +246,11 @@ non-trivial = at least one danger flag, an added root or a non-valid certificate
         let seen = peer.seen.lock().unwrap().clone();
 
         let (ic, ih, root) = if effective { (case.invalid_certs, case.invalid_hostnames, case.add_root) } else { (false, false, false) };
-        let want_ok = ic || ((chains && !expired && root) && (name_ok || ih));
+        let pinned = root && case.pin_leaf;
+        let want_ok = ic || ((chains && !expired && root && !pinned) && (name_ok || ih));
+        // a pinned leaf (the presented certificate itself added as a root): whether that makes the chain trusted differs
+        // between TLS libraries and is accepted either way - but never for an expired certificate or a wrong name
+        let pinned_may_succeed = pinned && !ic && !expired && (name_ok || ih);
         let route = ["direct", "tunnel", "https-proxy"][case.route as usize % 3];
         let place = ["session", "request", "sibling-before", "sibling-after", "session-after"][case.place as usize % 5];
         let describe = format!(
@@ -248,6 +266,14 @@ non-trivial = at least one danger flag, an added root or a non-valid certificate
         ctx.label_if(!effective, "flags-set-elsewhere");
         ctx.label_if(want_ok, "must-succeed");
         ctx.label_if(!want_ok, "must-fail");
+        ctx.label_if(pinned, "pinned-leaf-as-root");
+        if pinned_may_succeed {
+            ctx.label("ambiguous-accepted:pinned-leaf");
+            if outcome.is_err() && seen.request_head.is_some() {
+                return Outcome::fail(format!("C14:{}:request-sent-to-unauthenticated-peer", backend()), describe);
+            }
+            return Outcome::Pass;
+        }
         match (want_ok, outcome) {
             (true, Ok(())) | (false, Err(_)) => {
                 if !want_ok && seen.request_head.is_some() {
